@@ -24,6 +24,16 @@ def run(ctx):
         "signature PDU.Sign makes must be the same (key C06/signed-form/...); event types with their own keep lists "
         "(aliases, create, join_rules, power_levels, history_visibility, redaction, member with "
         "join_authorised_via_users_server / third_party_invite) are enumerated with the crypto states only",
+        "boundaries on data: valid_until_ts = origin_server_ts (valid), = origin_server_ts - 1 ms (invalid where strict), "
+        "expired_ts = origin_server_ts (invalid: a key is valid strictly before its expired_ts) and + 1 ms (valid)",
+        "malformed signature values (not base64 / wrong length / empty) alone (fails) and next to a good signature of the same "
+        "server or on servers that are not required (must not matter)",
+        "failing key sources: the database / the fetcher answering every lookup with an error, for fully signed events (no "
+        "key, no success); pseudo-ID joins: mxid_mapping ok / missing / its server signature corrupted (an mxid_mapping "
+        "without any signature is accepted by the library: outside the property sentence, not compared)",
+        "batches: [valid control, scenario, unsigned control] (the two controls share one event ID) and the scenario's event "
+        "next to a twin with the same event ID and the opposite signature validity, in both orders; "
+        "org.example.member: a non-membership event dressed like an invite with join_authorised_via_users_server",
         "presentation `received` (not for joins of pseudo-ID rooms, whose mxid_mapping redaction drops; in room version 8 the redacted form of a restricted join has lost join_authorised_via_users_server - repaired by room version 9 - so the authorising server is not required of it): the signed event gets a top-level key added in transit and is parsed with "
         "NewEventFromUntrustedJSON (content hash fails -> redacted form): same verdict as for the event as signed; "
         "enumerated with the plain key sources and silent other servers",
@@ -46,7 +56,7 @@ def run(ctx):
         "every scenario of EventSigs.tla: 16 room versions x {message and 6 event types with their own redaction keep lists, join, invite, leave, ban, knock} x target on "
         "the sender's / another server x join_authorised_via_users_server absent / naming the sender's, the target's or "
         "a third server x event-ID server = / != sender's server (room versions 1-2) x (all ok | all absent | %s "
-        "carrying one of 10 non-ok states) x other servers absent / signing validly%s x key sources (database / fetcher "
+        "carrying one of 16 non-ok states) x other servers absent / signing validly%s x key sources (database / fetcher "
         "per required server, fetcher volunteering or not), plus origin_server_ts 6 / 8 days ahead; distinct = distinct (kind, roles and states of the required servers, strict / lax / pseudo, others, time)"
         % (("one required server", "") if ctx.tier == "quick" else ("one or two required servers", " / signing invalidly")))
     cfg = "EventSigs_gen_%s.cfg" % ctx.tier
